@@ -460,6 +460,14 @@ def grammar_pool(rng, n_random, usize=True, names="plain", max_nt=4, max_t=4, ma
     for label, items, _cls in gen.families():
         out.append((label, items, gen.render(items), gen.to_oracle(items)))
     for k in range(n_random):
+        if k % 4 == 1:
+            items = gen.layered_grammar(rng)
+            out.append((f"layered{k}", items, gen.render(items), gen.to_oracle(items)))
+            continue
+        if k % 4 == 3:
+            items = gen.nesting_grammar(rng)
+            out.append((f"nesting{k}", items, gen.render(items), gen.to_oracle(items)))
+            continue
         items = gen.random_grammar(rng, names=names, payload="usize" if usize else "mixed", derive=True, max_nt=max_nt, max_t=max_t, maxlen=maxlen, min_t=min_t)
         out.append((f"random{k}", items, gen.render(items), gen.to_oracle(items)))
     return out
@@ -468,7 +476,7 @@ def grammar_pool(rng, n_random, usize=True, names="plain", max_nt=4, max_t=4, ma
 # =========================================================================================== C04 / C11 / C17
 
 def run_C04(rep, tier, rng):
-    n = 250 if tier == "quick" else 4000
+    n = 800 if tier == "quick" else 8000
     pool = grammar_pool(rng, n)
     texts = corpus("C04") + [t for _, _, t, _ in pool]
     pairs, dis = compare_stage_runs(rep, texts, "C04")
@@ -492,7 +500,7 @@ def run_C04(rep, tier, rng):
 
 
 def run_C11(rep, tier, rng):
-    n = 300 if tier == "quick" else 5000
+    n = 800 if tier == "quick" else 8000
     pool = grammar_pool(rng, n)
     texts = [t for _, _, t, _ in pool]
     pairs, dis = compare_stage_runs(rep, texts, "C11")
@@ -544,7 +552,7 @@ def _strip_head(s):
 
 
 def run_C17(rep, tier, rng):
-    n = 300 if tier == "quick" else 5000
+    n = 800 if tier == "quick" else 8000
     pool = grammar_pool(rng, n)
     texts = [t for _, _, t, _ in pool]
     pairs, dis = compare_stage_runs(rep, texts, "C17")
@@ -572,6 +580,69 @@ def run_C17(rep, tier, rng):
     return {"evaluations": len(pool), "distinct_nontrivial": ok,
             "rule": "same pool as C04; non-trivial = accepted grammars; tables read back from the emitted text and compared, modulo the renumbering found by traversal from the start state, with the tables of the specification-side LALR(1) automaton",
             "samples": sample([t for (_, _, t, _), (i, _) in zip(pool, pairs) if "(text " in i]), "accepted": ok, "model_disagreements": len(dis)}
+
+
+# =========================================================================================== validator (per-grammar proof)
+
+def valid_request(G, mx, tx):
+    """One `kvmodel valid` request from the implementation's machine and table S-expressions and the
+    structure-side grammar.  Codes are declaration indices."""
+    ti = {t: i for i, t in enumerate(G["terminals"])}
+    ni = {n: i for i, n in enumerate(G["nonterminals"])}
+    nT, nN = len(ti), len(ni)
+
+    def sym(s):
+        return ("t%d" % ti[s[1]]) if s[0] == "t" else ("n%d" % ni[s[1]])
+
+    rules = ";".join(f"{ni[lhs]}:{','.join(sym(x) for x in rhs)}" for lhs, rhs in G["rules"])
+    M = machine_of_sexp(mx)
+    states = []
+    for st in mx[2][1:]:
+        its = []
+        for it in st[1:]:
+            r = "a" if it[1] == "aug" else it[1]
+            la = "e" if it[2] == "eof" else str(ti[kv.unhexs(it[2])])
+            its.append(f"{r}.{it[3]}.{la}")
+        states.append(",".join(its))
+    start, terms, nts, action, goto, n = table_of_sexp(tx)
+    acts = tx[4][1:]
+    gts = tx[5][1:]
+    w = nT + 1
+
+    def cell(a):
+        if a == "err":
+            return "e"
+        if a == "acc":
+            return "a"
+        return ("s" if a[0] == "s" else "r") + a[1]
+
+    arows = "|".join(",".join(cell(acts[s * w + c]) for c in range(w)) for s in range(n))
+    grows = "|".join(",".join(("-" if gts[s * nN + c] == "none" else gts[s * nN + c]) for c in range(nN)) for s in range(n))
+    return f"{nT} {nN} {ni[G['start']]} {start} R {rules} S {'|'.join(states)} A {arows} G {grows}"
+
+
+def validate_automata(rep, cases):
+    """cases: [(label, text, G, impl stages line)] for accepted grammars.  Runs the proved-sound validator
+    (Proofs/Valid.validB) on the implementation's own machine and table.  Returns number validated."""
+    reqs, keep = [], []
+    for label, text, G, line in cases:
+        ip = corr.split_stages(line)
+        if "table" not in ip or "machine" not in ip:
+            continue
+        try:
+            reqs.append(valid_request(G, kv.parse_sexp(ip["machine"]), kv.parse_sexp(ip["table"])))
+            keep.append((label, text))
+        except Exception as e:
+            rep.violation("machine/table of the implementation cannot be read for validation: " + repr(e), {"source": text}, no_input=True)
+    outs = kv.run_model("valid", reqs)
+    bad = 0
+    for (label, text), o in zip(keep, outs):
+        if o != "(valid true)":
+            bad += 1
+            why = kv.unhexs(kv.parse_sexp(o)[2]) if o.startswith("(valid false") else o
+            rep.violation("the automaton/table built for an accepted grammar violates the local LR validity conditions (Sound/Complete), "
+                          "so the emitted parser is not shown to accept exactly L(G): " + why, {"label": label, "source": text}, no_input=True)
+    return len(keep) - bad
 
 
 # =========================================================================================== C01 / C02 / C03
@@ -627,7 +698,7 @@ def driver_runs(tier, seed):
             if old.startswith("driver-") and old.endswith(f"-{seed}-{tier}.pickle"):
                 os.remove(os.path.join(cdir, old))
         rng = random.Random(f"driver-{seed}")
-        n = 220 if tier == "quick" else 2500
+        n = 400 if tier == "quick" else 3000
         pool = grammar_pool(rng, n, min_t=0)
         outs = kv.run_impl("generate", [kv.hexs(t) for _, _, t, _ in pool])
         recs = []
@@ -733,6 +804,8 @@ def _impl_res(r, si):
 
 def run_C01(rep, tier, rng):
     recs = _driver_common(rep, tier)
+    lines = kv.run_impl("stages", corr.stage_requests([r["text"] for r in recs]))
+    validated = validate_automata(rep, [(r["label"], r["text"], r["G"], l) for r, l in zip(recs, lines) if l.startswith("(stages")])
     ev, acc, dis = 0, 0, []
     for r in recs:
         G = r["G"]
@@ -760,7 +833,7 @@ def run_C01(rep, tier, rng):
     return {"evaluations": ev, "distinct_nontrivial": sum(1 for r in recs for s in r["strings"] if len(s) >= 2),
             "rule": "accepted grammars from the C04 pool; per grammar all token strings up to length 3 (quick) / 5 (thorough) plus random sentences and their single-token mutations; the emitted module is compiled with rustc and run; verdict compared with an Earley recogniser on the declared productions (oracle) and with the model driver; non-trivial = at least 2 tokens",
             "samples": sample([{"source": r["text"], "tokens": r["strings"][-1], "impl": r["impl"][-1]} for r in recs[20:]]),
-            "grammars_compiled": len(recs), "sentences": acc, "model_disagreements": len(dis)}
+            "grammars_compiled": len(recs), "automata_validated_by_validB": validated, "sentences": acc, "model_disagreements": len(dis)}
 
 
 def run_C02(rep, tier, rng):
